@@ -12,6 +12,7 @@ import (
 
 func init() {
 	vHarnesses["H_C05_text"] = H_C05_text
+	vHarnesses["H_C05_compose"] = H_C05_compose
 	vHarnesses["H_C05_literals"] = H_C05_literals
 	vHarnesses["H_C05_builtins"] = H_C05_builtins
 	vHarnesses["H_C05_builtinsQ"] = H_C05_builtinsQ
@@ -133,6 +134,12 @@ func H_C05_literals(inst int) {
 		return err
 	})
 	reach("c05/literal", true)
+}
+
+// H_C05_compose: the term built by producer inst is handed to every consumer (engine.VH_C05_compose).
+func H_C05_compose(inst int) {
+	i := newFull()
+	engine.VH_C05_compose(&i.VM, inst)
 }
 
 // H_C05_builtins: predicate number inst of the table registered by New() (bootstrap included) x argument shapes.
